@@ -809,7 +809,7 @@ static void run_range(const std::vector<Case>& cs, size_t lo, size_t hi, std::ve
     sbx::Shared* sh = sbx::shared();
     sh->aux[6] = -1; sh->aux[7] = 0;
     for (size_t i = lo; i < hi; ++i) {
-      sh->cur = (long)i; alarm(WATCHDOG_S);
+      sh->cur = (long)i; sbx::watchdog(WATCHDOG_S);
       double t0 = now_s();
       int code = guarded(cs[i]);
       long ms = (long)((now_s() - t0) * 1000);
@@ -902,9 +902,9 @@ static void run_cases(const std::vector<Case>& cs, const std::string& label_pref
 static const bool REPORT_LEAK_AFTER_BAD_ALLOC = !KNOWN_LEAKS_AFTER_BAD_ALLOC_PRESENT;
 static int alloc_loop(const Case& c, long klo, long khi) {
   sbx::Shared* sh = sbx::shared(); sbx::Heap& h = sbx::heap();
-  { alarm(WATCHDOG_S); int code = guarded(c); if (code) return code; }      // warm-up without injection (lazy initialisations)
+  { sbx::watchdog(WATCHDOG_S); int code = guarded(c); if (code) return code; }      // warm-up without injection (lazy initialisations)
   for (long k = klo; k < khi; ++k) {
-    sh->cur = k; alarm(WATCHDOG_S);
+    sh->cur = k; sbx::watchdog(WATCHDOG_S);
     long long live0 = h.live;
     h.countdown = k; h.hit = false; h.armed = false;
     int how = 0;
@@ -980,7 +980,7 @@ static void kf_case(const std::string& label, const Case& c, int watchdog = 10) 
 // its input from the heap in total (cumulative bytes, counted by the sandbox's malloc hook)
 static void kf_alloc_volume(const std::string& label, const Case& c, long long input_bytes, long long factor, const std::string& descr) {
   sbx::Result r = sbx::in_child([&]() -> int {
-    sbx::Heap& h = sbx::heap(); alarm(60);
+    sbx::Heap& h = sbx::heap(); sbx::watchdog(60);
     long long t0 = h.total;
     int code = guarded(c);
     sbx::shared()->aux[0] = (long)((h.total - t0) / 1024);
